@@ -742,14 +742,16 @@ fn judge_c06(trace: &StreamTrace, mut stats: Option<&mut Stats>) -> Option<Viola
     let ranges = incarnation_ranges(trace);
     // one-shot reference behaviour per incarnation (real scanner, whole segment)
     let mut want_frames: Vec<(usize, usize)> = Vec::new();
+    let mut want_attrs: Vec<u64> = Vec::new();
     let mut want_consumed: Vec<usize> = Vec::new();
     let mut one_shot_failed: Option<String> = None;
     for (a, b) in &ranges {
         let seg = &stream[*a..*b];
         match catch_unwind(AssertUnwindSafe(|| one_shot(seg))) {
             Ok(Ok((fr, c))) => {
-                for (o, l) in fr {
+                for (o, l, at) in fr {
                     want_frames.push((a + o, l));
+                    want_attrs.push(at);
                 }
                 want_consumed.push(c);
             }
@@ -803,6 +805,24 @@ fn judge_c06(trace: &StreamTrace, mut stats: Option<&mut Stats>) -> Option<Viola
                             k,
                             got.get(k),
                             want_frames.get(k)
+                        ),
+                    ));
+                    break;
+                }
+                // same frames: they must also report the same about themselves (payload, lengths,
+                // checksum, message number) in both delivery modes
+                if let Some(k) = o.deliveries.iter().zip(want_attrs.iter()).position(|(d, w)| d.attrs != *w) {
+                    res = Some(Violation::new(
+                        "C06",
+                        "C06.a",
+                        format!(
+                            "rover V{} over {} chunks: frame #{} at abs {} ({} bytes) is delivered at the same place as in the one-shot scan but reports different attributes (data / lengths / checksum / message number) - it had {} bytes behind it in the buffer when delivered",
+                            variant,
+                            trace.cuts.len() + 1,
+                            k,
+                            o.deliveries[k].off,
+                            o.deliveries[k].len,
+                            o.deliveries[k].have.saturating_sub(o.deliveries[k].off + o.deliveries[k].len)
                         ),
                     ));
                     break;
